@@ -43,6 +43,9 @@ pub fn install_panic_hook() {
             "<non-string panic payload>".to_string()
         };
         let location = info.location().map(|l| format!("{}:{}", l.file(), l.line())).unwrap_or_default();
+        if std::env::var_os("PVMON_TRACE").is_some() {
+            eprintln!("TRACE panic '{}' at {}", message, location);
+        }
         LAST_PANIC.with(|p| *p.borrow_mut() = Some(PanicInfo { message, location }));
     }));
 }
